@@ -189,6 +189,12 @@ func (c *Ctx) declareFun(name string, args []Sort, ret Sort) {
 		as = append(as, string(a))
 	}
 	c.decls = append(c.decls, fmt.Sprintf("(declare-fun %s (%s) %s)", name, strings.Join(as, " "), ret))
+	if name == "gbytes.str" {
+		// the content of a one-byte slice is determined by that byte (key prefixes such as []byte{mainPrefix})
+		c.decls = append(c.decls, "(declare-fun gstr.fromByte (Int) Str)")
+		c.declared["gstr.fromByte"] = SStr
+		c.asserts = append(c.asserts, &Assertion{Seq: 0, Always: true, Text: "(forall ((ba (Array Int Int)) (bo Int)) (! (= (gbytes.str ba bo 1) (gstr.fromByte (select ba bo))) :pattern ((gbytes.str ba bo 1))))"})
+	}
 	if name == "gstr.cat" {
 		// the only interpreted fact about concatenation: lengths add up
 		c.asserts = append(c.asserts, &Assertion{Seq: 0, Always: true, Text: "(forall ((ca Str) (cb Str)) (! (= (gstr.len (gstr.cat ca cb)) (+ (gstr.len ca) (gstr.len cb))) :pattern ((gstr.cat ca cb))))"})
